@@ -876,7 +876,7 @@ pub fn jobs_c05(tier: Tier) -> Vec<Job> {
     v
 }
 pub fn jobs_c06(tier: Tier) -> Vec<Job> {
-    let mut r = FuChecker::new("c06-fu-reward", vec!["F1", "F2", "F3", "F7", "F9", "F11"], FAlpha::Reward, vec![c06_rewards]);
+    let mut r = FuChecker::new("c06-fu-reward", vec!["F1", "F2", "F3", "F7", "F9", "F11", "F14"], FAlpha::Reward, vec![c06_rewards]);
     r.state_oracles = vec![c06_claimable];
     let mut core = FuChecker::new("c06-fu-core", vec!["F2", "F3", "F13"], FAlpha::RewardCore, vec![c06_rewards]);
     core.state_oracles = vec![c06_claimable];
@@ -906,7 +906,7 @@ pub fn jobs_c10_explore(tier: Tier) -> Vec<Job> {
 pub fn jobs_c11(tier: Tier) -> Vec<Job> {
     let mut v = vec![];
     for (i, (fee, rd)) in [(("uom", 1000u128), "uusdc"), (("uom", 0u128), "uusdc"), (("uusdc", 0u128), "uusdc"), (("uusdc", 1000u128), "uusdc")].into_iter().enumerate() {
-        let mut c = FuChecker::new(&format!("c11-fu-farms-cfg{i}"), vec!["F0", "F2", "F8"], FAlpha::Farms, vec![c11_farms]);
+        let mut c = FuChecker::new(&format!("c11-fu-farms-cfg{i}"), vec!["F0", "F2", "F8", "F15"], FAlpha::Farms, vec![c11_farms]);
         c.farm_fee = (fee.0.to_string(), fee.1);
         c.reward_denoms = vec![rd];
         v.push(explore_job(c, tier.pick(3, 5), Caps::default()));
